@@ -31,6 +31,8 @@ pub struct TracedTexError {
     )]
     pub error: Box<dyn TexError>,
     pub stack_trace: Vec<StackTraceElement>,
+    // Serialized as a sequence of pairs: formats like JSON only allow string keys in maps.
+    #[cfg_attr(feature = "serde", serde(with = "texcraft_stdext::serde_tools::iter"))]
     pub token_traces: HashMap<token::Token, trace::SourceCodeTrace>,
     pub end_of_input_trace: Option<trace::SourceCodeTrace>,
 }
